@@ -791,12 +791,6 @@ def _families(sub, r):
     return [o["g"][0] for o in r.get("ops", []) if "g" in o]
 
 
-def _gate_recipes_of(sub, r):
-    if sub == "gate":
-        return [tuple(r["g"])]
-    return [tuple(o["g"]) for o in r.get("ops", []) if "g" in o]
-
-
 import re as _re
 
 _VALID_ID = _re.compile(r"[a-z][a-zA-Z0-9_]*\Z")
@@ -832,10 +826,6 @@ KNOWN_FEATURES = {
     "C19B_cc_global_phase_dangling_if": lambda sub, r: any(_sub_statements(e) == 0 for e in _cc_steps(sub, r)),
     # C19C: classically controlled op whose sub-operation has no direct mnemonic raises TypeError instead of decomposing
     "C19C_cc_without_direct_qasm_typeerror": lambda sub, r: any(_sub_statements(e) is None for e in _cc_steps(sub, r)),
-    # C19D: bool control values (``control_values=[False]``, used by UniformSuperpositionGate's own decomposition): the
-    # controlled global phase produced while decomposing is dropped (ControlledGate._decompose_: ``rads[(False,)] = angle``)
-    "C19D_bool_control_value_phase_dropped": lambda sub, r: any(
-        fam == "UniformSuperposition" and (p["m"] & (p["m"] - 1)) != 0 for fam, p in _gate_recipes_of(sub, r)),
     # C19E: SympyCondition.qasm hard-codes ``m_<key>`` although keys that are no valid identifiers are stored in ``m<i>``
     "C19E_sympy_condition_sanitised_key": lambda sub, r: any(
         c["t"] == "eq" and not _VALID_ID.match("m_" + c["key"]) for e in _cc_steps(sub, r) for c in e["conds"]),
@@ -879,11 +869,17 @@ def uncovered():
     ]
 
 
+# regression inputs of repaired defects (C19D: bool control values, fixed by c21db99)
+_EXAMPLES_GATE = [
+    {"g": ["UniformSuperposition", {"n": 2, "m": 3}], "w": [0, 1], "n": 2, "nctrl": 0, "cv": [], "ctrl_form": "op",
+     "order": [0, 1], "precision": 10, "version": "2.0", "header": 1, "entry": "to_qasm"},
+]
+
 SUBCHECKS = [
     SubCheck("gate_special", None, oracle_gate, quick=0, thorough=0, shards_quick=4, shards_thorough=4,
              enumerate=special_gate_cases, exhaustive_in=("quick", "thorough")),
     SubCheck("gate", _gate_case(), oracle_gate, quick=3000, thorough=120000, shards_quick=8, shards_thorough=16,
-             essential={"direct": 0.2, "decomposed": 0.2, "controlled": 0.1}),
+             essential={"direct": 0.2, "decomposed": 0.2, "controlled": 0.1}, examples=_EXAMPLES_GATE),
     SubCheck("unitary", _unitary_case(), oracle_unitary, quick=1600, thorough=60000, shards_quick=6, shards_thorough=16,
              essential={"needs_decomposition": 0.3, "version=3.0": 0.3, "version=2.0": 0.3}),
     SubCheck("feedforward", _ff_case(), oracle_ff, quick=2400, thorough=90000, shards_quick=6, shards_thorough=16,
